@@ -84,7 +84,7 @@ static void case_valid(const Args &a, long idx, bool wantDesc, CaseResult &res) 
         End e[2];
         for (int k = 0; k < 2; k++) {
             int kind = R.coin(0.7) ? 0 : (R.coin(0.5) ? 1 : 2);
-            if ((buffer || (S.orthogonal && R.coin(0.5))) && kind == 1) kind = 0;   // the orthogonal router works on bounding boxes: a point on the border of a box is outside it, one strictly inside the box is inside the shape
+            if ((buffer || (S.orthogonal && R.coin(0.5))) && kind == 1) kind = 0;   // the orthogonal router works on bounding boxes: a point on the border of a shape (or of its box) is outside it: the shape stays an obstacle
             e[k].kind = kind; e[k].shape = -1;
             if (kind == 0) { IP q, dummy; if (!genFreeEndpoints(R, S, 0, 420, margin, q, dummy)) { kind = 2; e[k].kind = 2; } else e[k].p = q; }
             if (kind == 1) { int s = (int)R.ri(0, (long)S.shapes.size() - 1); const IPoly &pl = S.shapes[s].poly; size_t v = (size_t)R.ri(0, (long)pl.size() - 1); IP p = pl[v], q = pl[(v + 1) % pl.size()]; if (R.coin(0.5) && ((p.x + q.x) % 2 == 0) && ((p.y + q.y) % 2 == 0)) e[k].p = IP{(p.x + q.x) / 2, (p.y + q.y) / 2}; else e[k].p = p; e[k].shape = s; }
@@ -133,7 +133,7 @@ static void case_valid(const Args &a, long idx, bool wantDesc, CaseResult &res) 
         // attachments
         DP want[2]; std::vector<char> exempt(S.shapes.size(), 0), onBorder(S.shapes.size(), 0);
         // the sight lines of an end on a shape's border are part of the shared orthogonal visibility graph: any connector may ride them (F96)
-        if (S.orthogonal) for (auto &pr : ends) for (const End *q : {&pr.first, &pr.second}) if (q->kind != 2) for (size_t s = 0; s < S.shapes.size(); s++) { ll x0, y0, x1, y1; bbox(S.shapes[s].poly, x0, y0, x1, y1); if (q->p.x >= x0 && q->p.x <= x1 && q->p.y >= y0 && q->p.y <= y1 && !(q->p.x > x0 && q->p.x < x1 && q->p.y > y0 && q->p.y < y1)) onBorder[s] = 1; }
+        if (S.orthogonal) for (auto &pr : ends) for (const End *q : {&pr.first, &pr.second}) if (q->kind != 2) for (size_t s = 0; s < S.shapes.size(); s++) { ll x0, y0, x1, y1; bbox(S.shapes[s].poly, x0, y0, x1, y1); if (q->p.x >= x0 && q->p.x <= x1 && q->p.y >= y0 && q->p.y <= y1 && !ptStrictInside(q->p, S.shapes[s].poly)) onBorder[s] = 1; }   // on the box border, or on the polygon's own border inside its box
         IP ipEnd[2]; bool intEnd[2];
         for (int k = 0; k < 2; k++) {
             const End &e = k ? ends[c].second : ends[c].first;
@@ -141,7 +141,7 @@ static void case_valid(const Args &a, long idx, bool wantDesc, CaseResult &res) 
                 ll x0, y0, x1, y1; bbox(S.shapes[e.shape].poly, x0, y0, x1, y1);
                 want[k] = DP{(x0 + x1) / 2.0, (y0 + y1) / 2.0}; exempt[e.shape] = 1; intEnd[k] = true; ipEnd[k] = IP{2 * (x0 + x1), 2 * (y0 + y1)};   // x4 coordinates
             } else { want[k] = dp(e.p); intEnd[k] = true; ipEnd[k] = IP{4 * e.p.x, 4 * e.p.y}; for (size_t s = 0; s < S.shapes.size(); s++) { if (S.orthogonal) { ll x0, y0, x1, y1; bbox(S.shapes[s].poly, x0, y0, x1, y1); bool inBox = e.p.x >= x0 && e.p.x <= x1 && e.p.y >= y0 && e.p.y <= y1, strictly = e.p.x > x0 && e.p.x < x1 && e.p.y > y0 && e.p.y < y1;
-                    if (inBox && !strictly) { onBorder[s] = 1; res.count("orthogonal_endpoints_on_a_shape_border"); } else if (strictly && ptInClosed(e.p, S.shapes[s].poly)) exempt[s] = 1; } else if (ptInClosed(e.p, S.shapes[s].poly)) exempt[s] = 1; } }
+                    (void)strictly; if (inBox && ptStrictInside(e.p, S.shapes[s].poly)) exempt[s] = 1; else if (inBox) { onBorder[s] = 1; res.count("orthogonal_endpoints_on_a_shape_border"); } } else if (ptInClosed(e.p, S.shapes[s].poly)) exempt[s] = 1; } }
         }
         const Avoid::Point &f = r.ps[0], &l = r.ps[r.size() - 1];
         if (f.x != want[0].x || f.y != want[0].y) res.violate("source-attachment-mismatch", wit("first route point differs from source attachment"));
